@@ -898,6 +898,9 @@ func genCase(r *common.Rand) (*dag.Graph, []op) {
 		}
 	}
 	addReferrers(r, g, r.Intn(5))
+	if r.Chance(1, 4) {
+		addHeldCluster(r, g)
+	}
 	var pushable, manifests []int
 	for _, n := range g.Nodes {
 		if n.Foreign() {
@@ -976,6 +979,79 @@ func genCase(r *common.Rand) (*dag.Graph, []op) {
 		ops = append(ops, op{K: 'G'})
 	}
 	return g, ops
+}
+
+// appendManifest adds an image manifest (config = blob cfg) or an index (listing lists) with an
+// optional subject on top of g and returns its id.
+func appendManifest(g *dag.Graph, index bool, subject int, cfg int, lists []int, note string) int {
+	id := len(g.Nodes)
+	nd := &dag.Node{ID: id, Subject: subject, TwinOf: -1}
+	var subj *ocispec.Descriptor
+	if subject >= 0 {
+		d := g.Nodes[subject].Desc
+		subj = &d
+		nd.Succ = append(nd.Succ, subject)
+	}
+	ann := map[string]string{"verif.extra": note + strconv.Itoa(id)}
+	var body []byte
+	var mt string
+	if index {
+		nd.Kind, mt = dag.KIndex, ocispec.MediaTypeImageIndex
+		var ix ocispec.Index
+		ix.SchemaVersion, ix.MediaType, ix.Subject, ix.Annotations = 2, mt, subj, ann
+		ix.Manifests = []ocispec.Descriptor{}
+		for _, m := range lists {
+			ix.Manifests = append(ix.Manifests, g.Nodes[m].Desc)
+			nd.Succ = append(nd.Succ, m)
+		}
+		body, _ = json.Marshal(ix)
+	} else {
+		nd.Kind, mt = dag.KImage, ocispec.MediaTypeImageManifest
+		var m ocispec.Manifest
+		m.SchemaVersion, m.MediaType, m.Subject, m.Annotations = 2, mt, subj, ann
+		m.Config = g.Nodes[cfg].Desc
+		m.Layers = []ocispec.Descriptor{}
+		nd.Succ = append(nd.Succ, cfg)
+		body, _ = json.Marshal(m)
+	}
+	nd.Bytes = body
+	nd.Desc = ocispec.Descriptor{MediaType: mt, Digest: digest.FromBytes(body), Size: int64(len(body))}
+	g.Nodes = append(g.Nodes, nd)
+	return id
+}
+
+// addHeldCluster: a referrer X of some manifest m that an index R lists (R is itself a
+// referrer of m, or of nothing) and that has a referrer of its own: X must wait for R and
+// is never "dangling" while its own referrer exists.
+func addHeldCluster(r *common.Rand, g *dag.Graph) {
+	var blobs, manifests []int
+	for _, n := range g.Nodes {
+		if n.Foreign() {
+			continue
+		}
+		if n.IsManifest() {
+			manifests = append(manifests, n.ID)
+		} else {
+			blobs = append(blobs, n.ID)
+		}
+	}
+	if len(manifests) == 0 || len(blobs) == 0 {
+		return
+	}
+	m := common.Pick(r, manifests)
+	c := common.Pick(r, blobs)
+	x := appendManifest(g, false, m, c, nil, "x")
+	rs := -1
+	switch r.Intn(3) {
+	case 0:
+		rs = m
+	case 1:
+		rs = common.Pick(r, manifests)
+	}
+	appendManifest(g, true, rs, 0, []int{x}, "r")
+	if r.Chance(2, 3) {
+		appendManifest(g, false, x, c, nil, "s")
+	}
 }
 
 // addReferrers puts k more manifests on top of g: image manifests and indexes whose
